@@ -166,7 +166,7 @@ func gen(g *common.Gen) {
 					if r.Chance(1, 4) {
 						t, ic = common.Pick(r, crit), r.Intn(2)
 					}
-					g.Op("sigins %d %s %s %d %s", ic, txt, common.Hex(r.Bytes(r.Range(0, 40))), k, common.Hex(TLV(t, r.Bytes(r.Range(1, 4)))))
+					g.Op("sigins %d %s %s %d %s", ic, txt, common.Hex(r.Bytes(r.Range(0, 40))), k, common.Hex(TLV(t, r.Bytes(r.Range(0, 4)))))
 					g.Stat("sigins")
 				}
 			}
